@@ -937,3 +937,32 @@ Proof.
   exists (map (direct (f_of d) (map fst d)) qs), c. split; [exact E|].
   cbn [pred_ok]. apply list_eqb_refl. apply matrix_eqb_refl.
 Qed.
+
+(* ---- float and native-histogram streams of the same series ---- *)
+Opaque Z.mul.
+Lemma both_kinds_incr (l : list (Z * list (Z * Z) * list (Z * Z))) :
+  incr (map (fun x => fst (fst x)) l) ->
+  incr (map fst (flat_map (fun x => [(2 * fst (fst x), snd (fst x)); (2 * fst (fst x) + 1, snd x)]) l)).
+Proof.
+  induction l as [|[[s a] b] l IH]; intro H; [exact I|]. cbn in H. destruct H as [H1 H2].
+  cbn [flat_map app map fst snd incr]. specialize (IH H2).
+  assert (K : forall y, In y (map fst (flat_map (fun x => [(2 * fst (fst x), snd (fst x)); (2 * fst (fst x) + 1, snd x)]) l)) -> 2 * s + 1 < y).
+  { intros y Hy. apply in_map_iff in Hy as ([y' iv] & <- & Hy). apply in_flat_map in Hy as ([[s' a'] b'] & Hs' & Hy).
+    assert (s < s') by (apply H1; apply in_map_iff; exists (s', a', b'); auto).
+    cbn [In fst snd] in Hy. destruct Hy as [E|[E|[]]]; inversion E; subst; cbn [fst]; lia. }
+  split; [|split; [exact K | exact IH]].
+  intros y [<-|Hy]; [lia | specialize (K y Hy); lia].
+Qed.
+Transparent Z.mul.
+
+Theorem history_kinds (l : list (Z * list (Z * Z) * list (Z * Z))) split use_split qs :
+  incr (map (fun x => fst (fst x)) l) -> 0 < split -> Forall query_ok qs ->
+  slice_keeps_equal = false /\
+  exists rs c,
+    history (f_of (flat_map (fun x => [(2 * fst (fst x), snd (fst x)); (2 * fst (fst x) + 1, snd x)]) l))
+            (map fst (flat_map (fun x => [(2 * fst (fst x), snd (fst x)); (2 * fst (fst x) + 1, snd x)]) l))
+            split use_split [] qs = Some (rs, c)
+    /\ pred_ok (CHist split use_split (flat_map (fun x => [(2 * fst (fst x), snd (fst x)); (2 * fst (fst x) + 1, snd x)]) l) qs rs c) = true.
+Proof.
+  intros H Hsp F. split; [apply slice_strict|]. apply history_pred; auto. apply both_kinds_incr. exact H.
+Qed.
